@@ -65,12 +65,27 @@ func funcsUnmarshallingInto(p *Prog, typeName string) []*ssa.Function {
 func typedEnv(fn *ssa.Function, names map[string]string) map[ssa.Value]string {
 	env := map[ssa.Value]string{}
 	for _, p := range fn.Params {
-		ts := types.TypeString(p.Type(), func(pk *types.Package) string { return pk.Name() })
-		if n, ok := names[ts]; ok {
+		if n, ok := aliasForType(p.Type(), names); ok {
 			env[p] = n
 		}
 	}
 	return env
+}
+
+// aliasForType: the canonical name the tables use for a value of type t: by the type's spelling, and, for the unexported
+// signature-requirement enumeration, by its role (an integer type of the root package whose name mentions "signature"),
+// so that renaming the type does not change the tables.
+func aliasForType(t types.Type, names map[string]string) (string, bool) {
+	ts := types.TypeString(t, func(pk *types.Package) string { return pk.Name() })
+	if n, ok := names[ts]; ok {
+		return n, true
+	}
+	if isSigReqType(t) {
+		if n, ok := names["saml.signatureRequirement"]; ok {
+			return n, true
+		}
+	}
+	return "", false
 }
 
 var spParamNames = map[string]string{
